@@ -18,25 +18,65 @@ import operator
 
 import z3
 
-from .core import F32, F64, RNE, Sym, SymSeq, Undecided, Unsupported, fresh_int, is_concrete_int, z3_of
+from .core import F32, F64, RNE, StrSort, Sym, SymSeq, Undecided, Unsupported, fresh_int, is_concrete_int, z3_of
 
 US_PER_DAY = 86400 * 10**6
 
 # uninterpreted functions shared by code-side terms and spec-side terms -------------------------------
 I2F = z3.Function("i2f", z3.IntSort(), F64)  # int -> float conversion
-PY_INT = z3.Function("py_int", z3.StringSort(), z3.IntSort())  # int(text)
-PY_FLOAT = z3.Function("py_float", z3.StringSort(), F64)  # float(text)
-STRIP = z3.Function("py_strip", z3.StringSort(), z3.StringSort())  # text.strip()
+PY_INT = z3.Function("py_int", StrSort, z3.IntSort())  # int(text)
+PY_FLOAT = z3.Function("py_float", StrSort, F64)  # float(text)
+STRIP = z3.Function("py_strip", StrSort, StrSort)  # text.strip()
 JAN1 = z3.Function("jan1_days", z3.IntSort(), z3.IntSort())  # days from epoch to 1 January of year
 BEU = z3.Function("be_uint", z3.IntSort(), z3.IntSort(), z3.IntSort(), z3.IntSort())  # (file, off, width) -> value
 BITS32 = z3.Function("be_bits32", z3.IntSort(), z3.IntSort(), z3.BitVecSort(32))  # (file, off) -> 4 bytes big-endian
-TXT = z3.Function("ascii_text", z3.IntSort(), z3.IntSort(), z3.IntSort(), z3.StringSort())  # (file, off, width)
-RAWB = z3.Function("raw_bytes", z3.IntSort(), z3.IntSort(), z3.IntSort(), z3.StringSort())  # (file, off, width) as opaque
-STRIP0 = z3.Function("strip_nul", z3.StringSort(), z3.StringSort())  # bytes.strip(b"\0")
-STRPTIME = z3.Function("strptime_us", z3.StringSort(), z3.StringSort(), z3.IntSort())  # (text, format) -> µs
-ISOFMT = z3.Function("isoformat", z3.IntSort(), z3.StringSort())  # datetime µs -> ISO text
-STR_OF_INT = z3.Function("str_of_int", z3.IntSort(), z3.StringSort())
-SPLIT_JOIN = z3.Function("split_join", z3.StringSort(), z3.StringSort(), z3.StringSort())  # sep.join(text.split())
+TXT = z3.Function("ascii_text", z3.IntSort(), z3.IntSort(), z3.IntSort(), StrSort)  # (file, off, width)
+RAWB = z3.Function("raw_bytes", z3.IntSort(), z3.IntSort(), z3.IntSort(), StrSort)  # (file, off, width) as opaque
+STRIP0 = z3.Function("strip_nul", StrSort, StrSort)  # bytes.strip(b"\0")
+STRPTIME = z3.Function("strptime_us", StrSort, StrSort, z3.IntSort())  # (text, format) -> µs
+ISOFMT = z3.Function("isoformat", z3.IntSort(), StrSort)  # datetime µs -> ISO text
+STR_OF_INT = z3.Function("str_of_int", z3.IntSort(), StrSort)
+SPLIT_JOIN = z3.Function("split_join", StrSort, StrSort, StrSort)  # sep.join(text.split())
+
+
+# strings: an uninterpreted sort (z3's sequence theory is not used: it is unstable and ignores timeouts).
+# Python string constants are distinct constants of the sort; the facts about them are collected in STR_FACTS
+# and are part of every query.
+_STR_CONSTS = {}
+STR_FACTS = []
+IS_EMPTY = z3.Function("str_is_empty", StrSort, z3.BoolSort())
+STR_LEN = z3.Function("str_len", StrSort, z3.IntSort())
+CONCAT = z3.Function("str_concat", StrSort, StrSort, StrSort)
+SUBSTR = z3.Function("str_slice", StrSort, z3.IntSort(), z3.IntSort(), StrSort)
+CONTAINS = z3.Function("str_contains", StrSort, StrSort, z3.BoolSort())
+PREFIXOF = z3.Function("str_prefixof", StrSort, StrSort, z3.BoolSort())
+SUFFIXOF = z3.Function("str_suffixof", StrSort, StrSort, z3.BoolSort())
+
+
+def str_const(v):
+    c = _STR_CONSTS.get(v)
+    if c is None:
+        c = z3.Const(f"str:{v!r}", StrSort)
+        for other in _STR_CONSTS.values():
+            STR_FACTS.append(c != other)
+        STR_FACTS.append(IS_EMPTY(c) == z3.BoolVal(v == ""))
+        STR_FACTS.append(STR_LEN(c) == len(v))
+        _STR_CONSTS[v] = c
+    return c
+
+
+def str_value_of(term):
+    for v, c in _STR_CONSTS.items():
+        if z3.eq(c, term):
+            return v
+    return None
+
+
+def concat_terms(terms):
+    out = terms[0]
+    for t in terms[1:]:
+        out = CONCAT(out, t)
+    return out
 
 
 def mk_bool(t):
@@ -113,7 +153,7 @@ def as_str_term(v):
     if isinstance(v, Sym) and v.pyt is str:
         return v.term
     if isinstance(v, str):
-        return z3.StringVal(v)
+        return str_const(v)
     raise Unsupported(f"str term of {v!r}")
 
 
@@ -273,7 +313,7 @@ def binop(it, opname, l, r, inplace=False):
         a, b = td_to_us(l), td_to_us(r)
         return Sym(a + b if opname == "add" else a - b, _dt.timedelta)
     if tl is str and tr is str and opname == "add":
-        return Sym(z3.Concat(as_str_term(l), as_str_term(r)), str)
+        return Sym(CONCAT(as_str_term(l), as_str_term(r)), str)
     if "dt64" in (tl, tr) or "td64" in (tl, tr):
         return _np_time_binop(opname, l, r, tl, tr)
     raise Unsupported(f"binop {opname} on {tl} and {tr}")
@@ -317,7 +357,7 @@ def truth_term(it, v):
     if v.pyt is int:
         return v.term != 0
     if v.pyt is str:
-        return z3.Length(v.term) != 0
+        return z3.Not(IS_EMPTY(v.term))
     if v.pyt is float:
         return z3.Not(z3.fpIsZero(v.term))
     if v.pyt in (_dt.datetime,):
@@ -470,11 +510,11 @@ def contains(it, container, item):
     if isinstance(item, (Sym, SymComplex)):
         if isinstance(container, Sym):
             if container.pyt is str and item.pyt is str:
-                return mk_bool(z3.Contains(container.term, item.term))
+                return mk_bool(CONTAINS(container.term, item.term))
             raise Unsupported("membership in scalar symbol")
         if isinstance(container, str):
             if item.pyt is str:
-                return mk_bool(z3.Contains(z3.StringVal(container), item.term))
+                return mk_bool(CONTAINS(str_const(container), item.term))
             raise TypeError("'in <string>' requires string as left operand")
         if isinstance(container, (dict, set, frozenset, list, tuple, type({}.keys()))):
             terms = []
@@ -491,7 +531,7 @@ def contains(it, container, item):
         raise Unsupported(f"membership of symbol in {type(container).__name__}")
     if isinstance(container, Sym):
         if container.pyt is str and isinstance(item, str):
-            return mk_bool(z3.Contains(container.term, z3.StringVal(item)))
+            return mk_bool(CONTAINS(container.term, str_const(item)))
         raise Unsupported("membership in scalar symbol")
     if isinstance(container, (list, tuple)) and any(isinstance(x, Sym) for x in container):
         terms = []
@@ -620,9 +660,9 @@ def subscript(it, obj, key):
     if isinstance(obj, Sym):
         if obj.pyt is str:
             if isinstance(key, slice) and key.step is None:
-                ln = z3.Length(obj.term)
-                a, b, _, _ = slice_bounds(it, key, mk_int(ln))
-                return Sym(z3.SubString(obj.term, a, b - a), str)
+                lo = as_int_term(key.start) if key.start is not None else z3.IntVal(0)
+                hi = as_int_term(key.stop) if key.stop is not None else z3.IntVal(-1)
+                return Sym(SUBSTR(obj.term, lo, hi), str)
             raise Unsupported("indexing a symbolic string")
         raise Unsupported(f"subscript of {obj!r}")
     if isinstance(key, Sym):
@@ -689,25 +729,25 @@ def call_sym_method(it, m, a, k):
         if name == "strip" and not a:
             return Sym(STRIP(s), str)
         if name == "lower" and not a:
-            return Sym(z3.Function("py_lower", z3.StringSort(), z3.StringSort())(s), str)
+            return Sym(z3.Function("py_lower", StrSort, StrSort)(s), str)
         if name == "upper" and not a:
-            return Sym(z3.Function("py_upper", z3.StringSort(), z3.StringSort())(s), str)
+            return Sym(z3.Function("py_upper", StrSort, StrSort)(s), str)
         if name == "startswith":
             pre = a[0]
             if isinstance(pre, tuple):
-                return mk_bool(z3.Or(*[z3.PrefixOf(as_str_term(p), s) for p in pre]))
-            return mk_bool(z3.PrefixOf(as_str_term(pre), s))
+                return mk_bool(z3.Or(*[PREFIXOF(as_str_term(p), s) for p in pre]))
+            return mk_bool(PREFIXOF(as_str_term(pre), s))
         if name == "endswith":
-            return mk_bool(z3.SuffixOf(as_str_term(a[0]), s))
+            return mk_bool(SUFFIXOF(as_str_term(a[0]), s))
         if name == "encode":
             return Sym(s, str, tag="encoded")
         if name == "split" and not a:
             return SymSplit(obj)
         if name == "isdigit":
-            return mk_bool(z3.Function("py_isdigit", z3.StringSort(), z3.BoolSort())(s))
+            return mk_bool(z3.Function("py_isdigit", StrSort, z3.BoolSort())(s))
         if name == "removeprefix":
             p = as_str_term(a[0])
-            return Sym(z3.If(z3.PrefixOf(p, s), z3.SubString(s, z3.Length(p), z3.Length(s) - z3.Length(p)), s), str)
+            return Sym(z3.Function("py_removeprefix", StrSort, StrSort, StrSort)(s, p), str)
         raise Unsupported(f"str.{name} on symbol")
     if isinstance(obj, Sym) and obj.pyt is _dt.datetime:
         if name == "isoformat" and not a:
@@ -733,7 +773,7 @@ def format_string(it, parts):
     for p in parts:
         if isinstance(p, str):
             if p:
-                terms.append(z3.StringVal(p))
+                terms.append(str_const(p))
             continue
         _, val, conv, spec = p
         if isinstance(val, Sym) and val.pyt is str and not spec and conv in (-1, ord("s")):
@@ -742,9 +782,39 @@ def format_string(it, parts):
             terms.append(STR_OF_INT(val.term))
         else:
             # only used for messages: opaque text of the value
-            terms.append(z3.String(f"fmt!{id(val)}"))
+            terms.append(z3.Const(f"fmt!{id(val)}", StrSort))
     if not terms:
         return ""
     if len(terms) == 1:
         return Sym(terms[0], str)
-    return Sym(z3.Concat(*terms), str)
+    return Sym(concat_terms(terms), str)
+
+
+def merge_values(it, results):
+    """[(conditions, value)] -> one value (ite over the conditions) when all values are scalars of one kind"""
+    vals = [v for _, v in results]
+    kinds = {pyt_of(v) if not isinstance(v, SymComplex) else complex for v in vals}
+    if kinds <= {int, bool} and bool not in kinds or kinds == {int}:
+        conv = as_int_term
+        pyt = int
+    elif kinds == {bool}:
+        conv = lambda v: v.term if isinstance(v, Sym) else z3.BoolVal(v)  # noqa: E731
+        pyt = bool
+    elif kinds == {float}:
+        conv = as_f64_term
+        pyt = float
+    elif kinds == {str}:
+        conv = as_str_term
+        pyt = str
+    elif kinds == {_dt.datetime}:
+        conv = dt_to_us
+        pyt = _dt.datetime
+    else:
+        return NotImplemented
+    if any(isinstance(v, (list, dict, tuple)) for v in vals):
+        return NotImplemented
+    term = conv(vals[-1])
+    for conds, v in reversed(results[:-1]):
+        c = z3.And(*conds) if len(conds) != 1 else conds[0]
+        term = z3.If(c, conv(v), term)
+    return Sym(term, pyt)
